@@ -152,9 +152,15 @@ var symbols = []string{"find", "area", "x", "y", "f", "add-tag", "all-tags", "to
 var plainStrings = []string{"", "a", "cafe", "hello world", "it's", "a,b", "x=y", "(p)", "[q]", "{r}", "a|b", "é", "日本", "#amenity", "1st", "-5", "1.5", "  ", "a->b", "/n/1"}
 var escapeStrings = []string{"a\"b", "back\\slash", "line\nbreak", "tab\t", "\x00", "\x7f", "q\"", "\\"}
 var keys = []string{"#amenity", "#building", "@name", "name", "addr:street", "#shop", "#a-b", "#", "@", "ref_1", "#x:y"}
-var badKeys = []string{"1st", "_x", "a b", "", "é", "#a b", "na\"me", "-k"}
+var badKeys = []string{"1st", "_x", "a b", "", "é", "#a b", "na\"me", "-k", "#caf\u00e9", "@\u6771"}
 var values = []string{"cafe", "yes", "restaurant", "a-b", "x:y", "A1", "1st", "_x", "", "two words", "é", "5", "-1", "no.", "#v", "a=b"}
 var nss = []string{"openstreetmap.org/node", "openstreetmap.org/way", "openstreetmap.org/relation", "diagonal.works/ns/ui", "a/b/c", "ordnancesurvey.co.uk/uprn", "x_y.z-w"}
+
+// namespaces with letters / digits beyond ASCII: the lexer keeps them in the FEATURE_ID token (unicode.IsLetter / IsDigit)
+var unicodeNss = []string{"caf\u00e9.org/x", "stra\u00dfe", "\u6771\u4eac/\u99c5", "\U0001d400b/c", "ns\u0663", "\u0414\u0430/\u03b1\u03b2", "\uff11x", "\uac00\ub098"}
+
+// … and with runes that end the token: a combining mark, an emoticon, a multiplication sign, a no-break space
+var unicodeBadNss = []string{"e\u0301", "a\U0001f600", "a\u00d7b", "a\u00a0b", "\u2003x"}
 var badNss = []string{"a b", "a:b", "a+b", "a,b"}
 
 type gen struct {
@@ -162,7 +168,14 @@ type gen struct {
 	odd bool // draw from outside the printable subset too
 }
 
-func (g *gen) sym() string { return g.c.Rand.Pick(symbols) }
+func (g *gen) sym() string {
+	if g.odd && g.c.Rand.Chance(1, 12) {
+		// symbols are printed bare, and the lexer only reads ASCII ones
+		g.c.Note("class:symbol-not-ascii")
+		return g.c.Rand.Pick([]string{"\u00e9", "na\u00efve", "f\u6771", "x\u0301"})
+	}
+	return g.c.Rand.Pick(symbols)
+}
 
 func (g *gen) str() string {
 	if g.odd && g.c.Rand.Chance(1, 4) {
@@ -216,9 +229,16 @@ func (g *gen) id() b6.FeatureID {
 	r := g.c.Rand
 	ts := []b6.FeatureType{b6.FeatureTypePoint, b6.FeatureTypePath, b6.FeatureTypeArea, b6.FeatureTypeRelation, b6.FeatureTypeCollection, b6.FeatureTypeExpression}
 	ns := r.Pick(nss)
+	if r.Chance(1, 5) {
+		g.c.Note("class:id-unicode-namespace")
+		ns = r.Pick(unicodeNss)
+	}
 	if g.odd && r.Chance(1, 5) {
 		g.c.Note("class:id-not-lexable")
 		ns = r.Pick(badNss)
+		if r.Bool() {
+			ns = r.Pick(unicodeBadNss)
+		}
 	}
 	id := b6.FeatureID{Type: ts[r.Intn(6)], Namespace: b6.Namespace(ns), Value: r.Uint64Edge()}
 	switch r.Intn(8) {
@@ -381,7 +401,7 @@ func (g *gen) lambda(depth int) b6.Expression {
 	}
 	if g.odd && r.Chance(1, 8) {
 		g.c.Note("class:lambda-param-not-symbol")
-		ps = append(ps, r.Pick([]string{"1x", "a b", ""}))
+		ps = append(ps, r.Pick([]string{"1x", "a b", "", "\u00e9", "x\u00e9"}))
 	}
 	return b6.NewLambdaExpression(ps, g.member(depth-1))
 }
@@ -473,7 +493,7 @@ func hasCollectionBrace(text string) bool {
 
 func variants(c *hx.Ctx, text string) {
 	r := c.Rand
-	wsRun := func() string { return r.Pick([]string{"  ", "\t", "\n", " \n ", "   "}) }
+	wsRun := func() string { return r.Pick([]string{"  ", "\t", "\n", " \n ", "   ", "\u00a0", " \u2003", "\u3000 ", "\u0085"}) }
 	// more white space where there is some, and around brackets and operators (outside string literals)
 	var sb strings.Builder
 	inString := false
@@ -536,7 +556,7 @@ func corpus(c *hx.Ctx) {
 		"find-feature /a/427900370 | area", "find [#place=uprn] | filter {u -> gt (all-tags u | count) 1}",
 		"add-collection /collection/test/0 (collection) (find [#boundary=ward])", "find (intersecting 19.4008, -99.1663)",
 		"find [#building=yes & [#shop=supermarket | #shop=convenience]]", "a | (b | c)", "{-> 5}", "f {x, y -> x | g y}", "x", "f",
-		"#ref=\"1st\"", "#name=\"\"", "0.125", "-1.5 | f", "51.5, -0.125", "f 1.0, 2.0 3.0", "f \"a b\" \"\"", "", "(", "f )", "\"open", "f +", "{a}", "1-2", "f 1.2.3", "/nope/x", "a > b", "f a=b c"} {
+		"#ref=\"1st\"", "#name=\"\"", "0.125", "-1.5 | f", "51.5, -0.125", "f 1.0, 2.0 3.0", "f \"a b\" \"\"", "find /point/caf\u00e9.org/x/7 | f", "f /area/\u6771\u4eac/\u99c5/1 \U0001d400", "/point/e\u0301/1", "f\u00a0x", "5\u0663", "5\u00a0x", "\u00e9", "", "(", "f )", "\"open", "f +", "{a}", "1-2", "f 1.2.3", "/nope/x", "a > b", "f a=b c"} {
 		opWs(c, t)
 	}
 	for _, e := range []b6.Expression{
